@@ -200,6 +200,11 @@ class Peer:
             out += lb + self._seal(frame, lb)
         return out
 
+    def hap_empty_frame(self):
+        """A frame without payload: length 0 and the tag over nothing (uses up one counter value)."""
+        lb = struct.pack("<H", 0)
+        return lb + self._seal(b"", lb)
+
     def hap_open(self, stream):
         out, pos = b"", 0
         while pos < len(stream):
@@ -599,7 +604,10 @@ def build_stream(sc):
                 i += 1
                 fr = p[pos:pos + sz]
                 pos += len(fr)
-                parts.append(peer.hap_seal(fr, [HAP_MAX]) if enc else fr)
+                if enc and not fr:
+                    parts.append(peer.hap_empty_frame())     # a peer may send frames without payload
+                else:
+                    parts.append(peer.hap_seal(fr, [HAP_MAX]) if enc else fr)
                 plains.append(fr)
             sc["_fi"] = i
         elif chan == "comp":
@@ -985,6 +993,9 @@ def gen_recv(ctx):
     # small 3-frame stream: every 1-cut (thorough: every 2-cut), every corruption position
     sc("hap", [rnd_pat(rng, 3), rnd_pat(rng, 7), rnd_pat(rng, 1)], c0=rng.choice([0, 255]), cuts="full", tamper="all")
     sc("hapchan", [rnd_pat(rng, 13)], peer_frames=[4, 1, 8], c0=1, cuts="full", tamper="all")
+    # frames without payload between the others (valid HAP: authenticated, use up a counter value)
+    sc("hapchan", [rnd_pat(rng, 9)], peer_frames=[4, 0, 5], c0=rng.choice([0, 255]), cuts="full", tamper="all")
+    sc("hap", [rnd_pat(rng, 6), rnd_pat(rng, 3)], peer_frames=[0, 6, 0, 0, 3], c0=2, cuts="full", tamper="all")
     # frames at the limit: 1023/1024/1025 and multiples (1025 = two frames)
     sc("hap", [rnd_pat(rng, 1023), rnd_pat(rng, 1024), rnd_pat(rng, 1025)], c0=rng.choice([0, 65535]), cuts="near" if not ctx.thorough else "full", tamper="some")
     sc("hapchan", [rnd_pat(rng, 2048), rnd_pat(rng, 1)], c0=(1 << 32) - 1, cuts="near")
